@@ -286,7 +286,12 @@ impl<'de, 'a> DeserializeSeed<'de> for &'a DynType {
             T::F64 => f64::deserialize(d).map(DynVal::F64),
             T::Char => char::deserialize(d).map(DynVal::Char),
             T::Str => String::deserialize(d).map(DynVal::Str),
-            T::Bytes => serde_bytes::ByteBuf::deserialize(d).map(|b| DynVal::Bytes(b.into_vec())),
+            // owned (deserialize_byte_buf, what conjure's Bytes asks for) or possibly borrowed (deserialize_bytes): two entry points
+            T::Bytes => if KEY_STYLE.with(|k| k.get()) % 2 == 1 {
+                d.deserialize_bytes(BytesVisitor).map(DynVal::Bytes)
+            } else {
+                serde_bytes::ByteBuf::deserialize(d).map(|b| DynVal::Bytes(b.into_vec()))
+            },
             T::Unit => <()>::deserialize(d).map(|()| DynVal::Unit),
             T::Uuid => Uuid::deserialize(d).map(DynVal::Uuid),
             T::Rid => ResourceIdentifier::deserialize(d).map(DynVal::Rid),
@@ -398,6 +403,26 @@ impl<'de, 'a> DeserializeSeed<'de> for FieldId<'a> {
             4 => d.deserialize_newtype_struct("Key", NewtypeKey(self)),
             _ => d.deserialize_identifier(self),
         }
+    }
+}
+struct BytesVisitor;
+impl<'de> Visitor<'de> for BytesVisitor {
+    type Value = Vec<u8>;
+    fn expecting(&self, f: &mut fmt::Formatter) -> fmt::Result {
+        f.write_str("bytes")
+    }
+    fn visit_bytes<E: de::Error>(self, v: &[u8]) -> Result<Vec<u8>, E> {
+        Ok(v.to_vec())
+    }
+    fn visit_byte_buf<E: de::Error>(self, v: Vec<u8>) -> Result<Vec<u8>, E> {
+        Ok(v)
+    }
+    fn visit_seq<A: SeqAccess<'de>>(self, mut seq: A) -> Result<Vec<u8>, A::Error> {
+        let mut out = vec![];
+        while let Some(b) = seq.next_element::<u8>()? {
+            out.push(b);
+        }
+        Ok(out)
     }
 }
 thread_local! {
